@@ -247,6 +247,12 @@ class C20(Prop):
         return out
 
     def execute(self, plan, ctx, variant=None):
+        # cookies with expires= read the wall clock: keep it virtual so that runs replay exactly
+        from ..simclock import SimClock, installed
+        with installed(SimClock(1_700_000_000.25), "UTC"):
+            self._execute(plan, ctx, variant)
+
+    def _execute(self, plan, ctx, variant=None):
         from baize.asgi.middleware import CachedStream
         iface = plan["iface"]
         boom = InnerError("inner failure")
@@ -274,8 +280,8 @@ class C20(Prop):
             CachedStream.spool_max_size = old_spool
         tag = "%s|%s" % (iface, plan["inner"] if plan["inner"] != "view" else plan["recipe"]["kind"])
         where = "[stack=%r method=%s range=%r zerocopy=%s]" % (plan["stack"], plan["method"], plan["range"], plan["zerocopy"])
-        ctx.ev("bare", bare.get("status"), len(bare.get("body") or b""), type(bare.get("exc")).__name__, bare.get("hang"))
-        ctx.ev("wrapped", wrapped.get("status"), len(wrapped.get("body") or b""), type(wrapped.get("exc")).__name__, wrapped.get("hang"))
+        ctx.ev("bare", bare.get("status"), bare.get("headers"), len(bare.get("body") or b""), type(bare.get("exc")).__name__, bare.get("hang"))
+        ctx.ev("wrapped", wrapped.get("status"), wrapped.get("headers"), len(wrapped.get("body") or b""), type(wrapped.get("exc")).__name__, wrapped.get("hang"))
         if bare.get("hang"):
             return   # not this property's business (C05/C06)
         if wrapped.get("hang"):
